@@ -9,9 +9,11 @@ mod c05;
 mod c08;
 mod c09;
 mod c10;
+mod c11;
 mod c12;
 mod c13;
 mod c15;
+mod c16;
 mod c17;
 mod crdt;
 mod gen;
@@ -49,9 +51,11 @@ fn main() {
             "C08" => c08::replay(&case),
             "C09" => c09::replay(&case),
             "C10" => c10::replay(&case),
+            "C11" => c11::replay(&case),
             "C12" => c12::replay(&case),
             "C13" => c13::replay(&case),
             "C15" => c15::replay(&case),
+            "C16" => c16::replay(&case),
             "C17" => c17::replay(&case),
             _ => {
                 eprintln!("no replay for property {prop:?}");
@@ -76,9 +80,11 @@ fn main() {
         "C08" => c08::run(tier),
         "C09" => c09::run(tier),
         "C10" => c10::run(tier),
+        "C11" => c11::run(tier),
         "C12" => c12::run(tier),
         "C13" => c13::run(tier),
         "C15" => c15::run(tier),
+        "C16" => c16::run(tier),
         "C17" => c17::run(tier),
         _ => usage(),
     };
